@@ -99,8 +99,9 @@ RInit(filters, topics, cids) ==
 \* ---- small helpers ----------------------------------------------------------
 Panic(r) == [r EXCEPT !.panicked = TRUE]
 Live(r, id) == id \in Ids /\ r.conns[id].live
-Ring(st, n) == [st EXCEPT ![n].tokens = IF @ < MaxChan THEN @ + 1 ELSE @]     \* handle.try_send(()).ok()
-RingN(st, n, k) == [st EXCEPT ![n].tokens = IF @ + k < MaxChan THEN @ + k ELSE MaxChan]
+\* handle.try_send(()).ok(): fails silently when the channel is full or the link dropped its receiver
+Ring(st, n) == [st EXCEPT ![n].tokens = IF st[n].phase \in {"closed", "done"} THEN @ ELSE IF @ < MaxChan THEN @ + 1 ELSE @]
+RingN(st, n, k) == [st EXCEPT ![n].tokens = IF st[n].phase \in {"closed", "done"} THEN @ ELSE IF @ + k < MaxChan THEN @ + k ELSE MaxChan]
 RECURSIVE SeqToSet(_)
 SeqToSet(s) == IF s = <<>> THEN {} ELSE {Head(s)} \cup SeqToSet(Tail(s))
 
